@@ -109,6 +109,7 @@ fn selection_campaign(report: &mut Report, n: usize) {
         expect: Option<Vec<String>>,
         /// for CLI non-matching: Err or all ops are both fine
         allow_all_or_err: bool,
+        via_path: bool,
     }
     let mut jobs = Vec::new();
     let mut metas = Vec::new();
@@ -163,8 +164,12 @@ fn selection_campaign(report: &mut Report, n: usize) {
         };
         opts.derive_mode = mode.starts_with("derive");
         opts.operation_name = name.clone();
-        jobs.push(Job { schema_path: sp, query: QuerySrc::Text(b.case.document.clone()), opts });
-        metas.push(Meta { tape: tp.clone(), doc: b.case.document.clone(), schema: b.case.schema_text.clone(), ops, mode, name, norm_rust, expect, allow_all_or_err: allow });
+        // both entry points: the document as a string, and as a file read by the library
+        let qsrc = if st.chance(50) { QuerySrc::Path(scratch.file(&b.case.document, "graphql")) } else { QuerySrc::Text(b.case.document.clone()) };
+        let via_path = matches!(qsrc, QuerySrc::Path(_));
+        report.feature(if via_path { "query:path" } else { "query:text" });
+        jobs.push(Job { schema_path: sp, query: qsrc, opts });
+        metas.push(Meta { tape: tp.clone(), doc: b.case.document.clone(), schema: b.case.schema_text.clone(), ops, mode, name, norm_rust, expect, allow_all_or_err: allow, via_path });
     }
     let outs = Pool::default().run(&jobs);
     for (o, m) in outs.iter().zip(&metas) {
@@ -215,7 +220,7 @@ fn selection_campaign(report: &mut Report, n: usize) {
         }
         if let Some(p) = problem {
             let summary = format!("operation selection [{} name={:?} normalization={}]: {}", m.mode, m.name, if m.norm_rust { "rust" } else { "none" }, p);
-            let replay = json!({"engine": "e2", "tape_hex": crate::tape::hex(&m.tape), "schema": m.schema, "document": m.doc, "mode": m.mode, "name": m.name, "normalization_rust": m.norm_rust, "operations": m.ops, "expect": m.expect, "allow_all_or_err": m.allow_all_or_err, "observed": o.short()});
+            let replay = json!({"engine": "e2", "tape_hex": crate::tape::hex(&m.tape), "schema": m.schema, "document": m.doc, "mode": m.mode, "name": m.name, "normalization_rust": m.norm_rust, "operations": m.ops, "expect": m.expect, "allow_all_or_err": m.allow_all_or_err, "via_path": m.via_path, "observed": o.short()});
             report.failure(None, &format!("{}:{}", m.mode, crate::campaign::dedup_text(&p)), &summary, || replay);
         }
     }
@@ -234,7 +239,9 @@ fn replay_selection(report: &mut Report, v: &Value) {
         normalization_rust: v["normalization_rust"].as_bool().unwrap_or(false),
         ..Default::default()
     };
-    let o = Pool::default().run_alone(&Job { schema_path: sp, query: QuerySrc::Text(v["document"].as_str().unwrap_or("").into()), opts });
+    let doc_text = v["document"].as_str().unwrap_or("").to_string();
+    let qsrc = if v["via_path"].as_bool().unwrap_or(false) { QuerySrc::Path(scratch.file(&doc_text, "graphql")) } else { QuerySrc::Text(doc_text) };
+    let o = Pool::default().run_alone(&Job { schema_path: sp, query: qsrc, opts });
     report.evaluations += 1;
     let want: Option<Vec<String>> = serde_json::from_value(v["expect"].clone()).ok().flatten();
     let ok = match (&o, &want) {
@@ -260,13 +267,15 @@ pub fn run(report: &mut Report, replay: Option<&Value>) {
         return;
     }
     super::replay_corpus(report, &|r, v| if v["engine"] == "e2" { replay_selection(r, v) } else { replay_e1(r, v) });
-    let hooks = Hooks { classify: &classify, classify_compile: &|_, _| None, compile_failure_is_violation: false };
     let (n_programs, rounds, n_sel) = if report.thorough() { (250, 8, 100_000) } else { (160, 1, 5_000) };
     selection_campaign(report, n_sel);
     let mut stats = GenStats::default();
     let mut cfg = CaseCfg::default();
     cfg.gen.max_ops = 4;
     cfg.gen.max_depth = 2;
+    let cfg_r = cfg.clone();
+    let rebuild = |tp: &[u8]| build_item(tp, &cfg_r, &mut GenStats::default());
+    let hooks = Hooks { classify: &classify, classify_compile: &|_, _| None, compile_failure_is_violation: false, rebuild: Some(&rebuild) };
     for round in 0..rounds {
         let tapes = sample_tapes(report.seed, 0xC05 + round as u64 * 7919, n_programs, 3072);
         let items: Vec<Item> = tapes.iter().filter_map(|tp| build_item(tp, &cfg, &mut stats)).collect();
